@@ -123,6 +123,7 @@ var schemas = map[string][]field{
 	"NHGEntryC":   {{"Id", "Id", kNat}, {"NextHopGroup", "NextHopGroup", kPtr("Unit")}},
 	// the RIB's orchestration (rib/rib.go)
 	"pendingEntry": {{"ni", "ni", kStr}, {"op", "op", kPtrNN("AFTOperationC")}},
+	"KeyRIB":  {},
 	"NewElem": {{"Key", "Key", kNat}},
 	"NewAfts": {{"Ipv4Entry", "Ipv4Entry", kind{k: "list", s: "NewElem", elemNN: true, keyed: true}}, {"Ipv6Entry", "Ipv6Entry", kind{k: "list", s: "NewElem", elemNN: true, keyed: true}},
 		{"LabelEntry", "LabelEntry", kind{k: "list", s: "NewElem", elemNN: true, keyed: true}}, {"NextHopGroup", "NextHopGroup", kind{k: "list", s: "NewElem", elemNN: true, keyed: true}},
@@ -159,7 +160,7 @@ var leanStruct = map[string]string{
 	"IPv4EntryC": "IPv4EntryC", "IPv6EntryC": "IPv6EntryC", "LabelEntryC": "LabelEntryC", "NHGEntryC": "NHGEntryC", "NHEntryC": "NHEntryC", "AFTOperationC": "AFTOperationC", "ModifyRequestC": "ModifyRequestC",
 	"AFTErrorDetails": "AFTErrorDetails", "AFTResultC": "AFTResultC", "SessionParametersResult": "SessionParametersResult", "ModifyResponseC": "ModifyResponseC", "PendingOp": "PendingOp",
 	"ElectionReqDetails": "ElectionReqDetails", "SessionParamReqDetails": "SessionParamReqDetails", "OpDetailsResults": "OpDetailsResults", "COpResult": "COpResult",
-	"AFTResultList": "(List AFTResultC)", "Bool": "Bool", "pendingQueue": "PendingQueue", "pendingEntry": "PendingEntry", "RibOpResult": "RibOpResult", "OrigTop": "OrigTop", "OrigNHGMember": "OrigNHGMember", "OrigNHG": "OrigNHG", "NewElem": "NewElem", "NewAfts": "NewAfts", "NewRIB": "NewRIB", "StringValue": "StringValue", "UintValue": "UintValue", "NewTop": "NewTop", "NewNHGMember": "NewNHGMember", "NewNHG": "NewNHG",
+	"AFTResultList": "(List AFTResultC)", "Bool": "Bool", "pendingQueue": "PendingQueue", "pendingEntry": "PendingEntry", "RibOpResult": "RibOpResult", "OrigTop": "OrigTop", "OrigNHGMember": "OrigNHGMember", "OrigNHG": "OrigNHG", "KeyRIB": "KeyRIB", "NewElem": "NewElem", "NewAfts": "NewAfts", "NewRIB": "NewRIB", "StringValue": "StringValue", "UintValue": "UintValue", "NewTop": "NewTop", "NewNHGMember": "NewNHGMember", "NewNHG": "NewNHG",
 }
 
 func leanType(k kind) string {
@@ -470,6 +471,11 @@ func render(e ast.Expr) string {
 		return "map[" + render(v.Key) + "]" + render(v.Value)
 	case *ast.StructType:
 		return "struct{}"
+	case *ast.TypeAssertExpr:
+		if v.Type == nil {
+			return render(v.X) + ".(type)"
+		}
+		return render(v.X) + ".(" + render(v.Type) + ")"
 	}
 	return fmt.Sprintf("<%T>", e)
 }
@@ -553,6 +559,9 @@ func trExpr(e ast.Expr, en env) val {
 		r := render(v)
 		if x, ok := en.vars[r]; ok { // state field such as s.curElecID
 			return x
+		}
+		if r == "math.MaxUint32" {
+			return val{lean: "4294967295", kd: kInt}
 		}
 		if id, ok := v.X.(*ast.Ident); ok && id.Name == "constants" && cur != nil {
 			if _, ok := cur.extConsts[r]; ok {
@@ -2131,6 +2140,17 @@ func trAssign(a *ast.AssignStmt, en env) env {
 			define := a.Tok == token.DEFINE
 			bindResult(&en, a.Lhs[0].(*ast.Ident).Name, p, define, a.Pos())
 			bindResult(&en, a.Lhs[1].(*ast.Ident).Name, okv, define, a.Pos())
+			return en
+		}
+	}
+	if len(a.Lhs) == 2 && len(a.Rhs) == 1 {
+		if ta, ok := a.Rhs[0].(*ast.TypeAssertExpr); ok && cur != nil {
+			// _, ok := x.(T): whether x has dynamic type T is an oracle named in the specification
+			pn, known := cur.subst[render(ta)]
+			if id, isId := a.Lhs[0].(*ast.Ident); !known || !isId || id.Name != "_" {
+				fail(a.Pos(), "type assertion %s", render(ta))
+			}
+			bindResult(&en, a.Lhs[1].(*ast.Ident).Name, en.vars[pn], a.Tok == token.DEFINE, a.Pos())
 			return en
 		}
 	}
